@@ -59,6 +59,7 @@ func ruleListItemChildCoverage(c *eng.Ctx) {
 		c.Undec(R, "htmldoc.getDirectTextContent", direct.Pos(), "html.ElementNode not found")
 		return
 	}
+	selfTag := "li"
 	mk := func(selfV ssa.Value) (func(ssa.Value) bool, func(ssa.Value, *eng.StrIntern) (int64, bool)) {
 		// the item node: the parameter itself, or a load of the cell it was spilled to because a closure captures it
 		isSelf := func(v ssa.Value) bool {
@@ -90,7 +91,7 @@ func ruleListItemChildCoverage(c *eng.Ctx) {
 				return elem, true
 			}
 			if base, ok := htmlNodeField(v, "Data"); ok && isSelf(base) {
-				return si.ID("li"), true
+				return si.ID(selfTag), true
 			}
 			if fr, ok := eng.LoadOfField(v); ok && fr.Field == "inList" {
 				return 1, true
@@ -156,7 +157,64 @@ func ruleListItemChildCoverage(c *eng.Ctx) {
 		}
 	}
 	sort.Slice(handlers, func(i, j int) bool { return eng.FuncName(handlers[i].fn) < eng.FuncName(handlers[j].fn) })
+	type job struct {
+		h   handler
+		tag string
+	}
+	var jobs []job
 	for _, h := range handlers {
+		// the element kinds for which this function asks for the direct text: each of them is an "item" whose
+		// left-out children must be traversed (a second caller, e.g. for block quotes, inherits the contract)
+		selfTag = "\x00"
+		isChildAny, leafAny := mk(h.self)
+		_ = isChildAny
+		isSelfData := func(v ssa.Value) bool {
+			base, ok := htmlNodeField(v, "Data")
+			if !ok {
+				return false
+			}
+			if base == h.self {
+				return true
+			}
+			if ld, ok := base.(*ssa.UnOp); ok && ld.Op == token.MUL {
+				if cell, ok := ld.X.(*ssa.Alloc); ok {
+					for _, r := range *cell.Referrers() {
+						if st, ok := r.(*ssa.Store); ok && st.Addr == ssa.Value(cell) && st.Val == h.self {
+							return true
+						}
+					}
+				}
+			}
+			return false
+		}
+		leafNoSelf := func(v ssa.Value, si *eng.StrIntern) (int64, bool) {
+			if isSelfData(v) {
+				return 0, false
+			}
+			return leafAny(v, si)
+		}
+		cands := append([]string{"li", "blockquote", "dd", "dt", "td", "th", "figcaption", "caption", "summary", "details"}, htmlTagUniverse...)
+		reached := eng.StrReach(h.fn, cands, isSelfData, leafNoSelf, func(in ssa.Instruction) bool {
+			ci, ok := in.(ssa.CallInstruction)
+			return ok && eng.StaticCallee(ci) == direct
+		})
+		any := false
+		seenTag := map[string]bool{}
+		for _, t := range cands {
+			if reached[t] && !seenTag[t] {
+				seenTag[t] = true
+				any = true
+				jobs = append(jobs, job{h, t})
+			}
+		}
+		if !any {
+			jobs = append(jobs, job{h, "li"})
+		}
+	}
+	// when the call is reached whatever the element is (no test of the kind in this function), one job is enough
+	for _, jb := range jobs {
+		h := jb.h
+		selfTag = jb.tag
 		w, self := h.fn, h.self
 		isChild, leaf := mk(self)
 		trav := eng.StrReach(w, dropped, isChild, leaf, func(in ssa.Instruction) bool {
@@ -195,9 +253,13 @@ func ruleListItemChildCoverage(c *eng.Ctx) {
 				lost = append(lost, "<"+t+">")
 			}
 		}
-		c.Check(len(lost) == 0, R, eng.FuncName(w)+"#li-children", w.Pos(),
+		keyTag := "#li-children"
+		if jb.tag != "li" {
+			keyTag = "#" + jb.tag + "-children"
+		}
+		c.Check(len(lost) == 0, R, eng.FuncName(w)+keyTag, w.Pos(),
 			fmt.Sprintf("children left out of the item text (%s) are traversed", strings.Join(dropped, ",")),
-			"text of "+strings.Join(lost, ", ")+" children of a list item is neither part of the item's text (getDirectTextContent leaves them out) nor traversed by the li case: it is lost")
+			"text of "+strings.Join(lost, ", ")+" children of a <"+jb.tag+"> element is neither part of its text (getDirectTextContent leaves them out) nor traversed by that element's case: it is lost")
 	}
 }
 
